@@ -148,6 +148,10 @@ func init() {
 			}
 			return i.mkval(types.Int64, i.ctx.Ite(i.term(a[0]), i.term(a[1]), i.term(a[2]))), true
 		},
+		"MapOrder": func(fr *frame, a []value) (value, bool) {
+			fr.i.mapRev = asInt64(a[0]) == 1
+			return nil, true
+		},
 		"Symbolic": func(fr *frame, a []value) (value, bool) { return true, true },
 		"Tier":     func(fr *frame, a []value) (value, bool) { return fr.i.eng.cfg.Tier, true },
 		"IsSym": func(fr *frame, a []value) (value, bool) {
